@@ -49,6 +49,49 @@ theorem reset_rearms (w : Writer) (d i : Bool) (c : Call) (hc : c.sends = true) 
   have := any_sends (w.reset d i) [c] (winv_reset w d i)
   simpa [Writer.run, Writer.reset, hc] using this
 
+/-- **At most one transport write through the whole writer stack.**  For
+EVERY sequence of WriteMsg / WriteWire / CommitWire calls on the top of the
+stack (cache wrapper present or not, any edns configuration, any bodies, any
+transport errors), at most one call reaches the transport. -/
+theorem stack_at_most_one_transport_write (cacheLayer directPack internal : Bool) (c : EdnsCfg) (xs : List SCall) :
+    (stackRun cacheLayer c (({} : Writer).reset directPack internal) xs).tx.length ≤ 1 := by
+  obtain ⟨h1, h2⟩ := winv_stackRun cacheLayer c _ xs (winv_reset {} directPack internal)
+  cases hw : (stackRun cacheLayer c (({} : Writer).reset directPack internal) xs).written
+  · rw [h2 hw]; exact Nat.zero_le _
+  · rw [h1 hw]; exact Nat.le_refl _
+
+/-- **A wire fallback has written nothing** — so the caller that retakes the
+Msg path after `ErrWireFallback` cannot produce a second reply, and (on a
+writer nothing was written to yet) its WriteMsg is the one transmitted. -/
+theorem wire_fallback_writes_nothing (cacheLayer : Bool) (c : EdnsCfg) (w : Writer) (x : SCall)
+    (h : (stackCall cacheLayer c w x).2 = .fallback ∨ (stackCall cacheLayer c w x).2 = .notWire) :
+    (stackCall cacheLayer c w x).1 = w ∧
+    (w.written = false → WInv w → ∀ p t, (stackCall cacheLayer c (stackCall cacheLayer c w x).1 (.writeMsg p t)).1.tx.length = 1) := by
+  have hsame : (stackCall cacheLayer c w x).1 = w := by
+    cases x with
+    | writeMsg p t => rcases h with h | h <;> simp [stackCall] at h
+    | writeWire b t =>
+      simp only [stackCall] at h ⊢
+      by_cases hc : cacheLayer = true
+      · simp [hc]
+      · simp only [hc, Bool.false_eq_true, if_false] at h ⊢
+        cases hf : ednsWireForward c b with
+        | none => rfl
+        | some n => simp [hf] at h
+    | commitWire b t =>
+      simp only [stackCall] at h ⊢
+      by_cases hc : cacheLayer = true
+      · simp [hc]
+      · simp only [hc, Bool.false_eq_true, if_false] at h ⊢
+        cases hf : ednsWireForward c b with
+        | none => rfl
+        | some n => simp [hf] at h
+  refine ⟨hsame, ?_⟩
+  intro hw hinv p t
+  rw [hsame]
+  have := any_sends w [.writeMsg (p || !c.noedns) t] hinv
+  simpa [Writer.run, stackCall, hw, Call.sends] using this
+
 /-- The compiled writer agrees with the model on its whole decision table
 (regenerated from the tree: every call kind on an unwritten and on a written
 writer → reached the transport?, returned already-written?, written after?). -/
@@ -694,6 +737,14 @@ example : ((Drain.run 8192 65535 {} [.stage 1 100, .stage 2 5000, .stage 3 5000,
     = [1, 2, 3, 4, 5] := by decide
 -- the peer leaves after the second reply was flushed: nothing is written twice, the rest is dropped
 example : (Drain.run 8192 65535 {} [.stage 1 100, .stage 2 100, .flush, .break, .stage 3 100, .flush, .stage 4 100]).1.wire = [1, 2] := by decide
+-- DO=0 client, body with DNSSEC records: edns falls back before writing; the Msg retake is the one reply; a late WriteWire is refused
+example :
+    let c : EdnsCfg := { doBit := false, noedns := false, udp := true, size := 1232 }
+    let w0 := ({} : Writer).reset true false
+    let a := stackCall false c w0 (.writeWire { len := 100, hasDNSSEC := true } false)
+    let b := stackCall false c a.1 (.writeMsg true false)
+    let d := stackCall false c b.1 (.writeWire { len := 100 } false)
+    a.2 = .fallback ∧ b.2 = .base .ok ∧ d.2 = .base .already ∧ d.1.tx = [.bytes] := by decide
 -- quota 2: two admitted, two shed, both leave: the counter is back at zero and the zone is open again
 example :
     let z := [ZOp.enter, .enter, .enter, .enter, .leave, .leave].foldl (ZL.step 2) {}
